@@ -6,6 +6,7 @@ import json
 import os
 import random
 import re
+import shutil
 import warnings
 
 from .. import fixtures, gendocs, observe, tlaval, tracecheck
@@ -14,10 +15,12 @@ from ..core import Machinery
 KINDS = ["formula", "formatted", "style", "border", "rowheight", "colwidth", "bullets"]
 
 
-def lc_cfg(depth, bug="none", view=True, kinds=KINDS, rewrites=()):
-    return ("CONSTANTS Files = {\"src\", \"a\", \"b\"}\nKinds = {%s}\nRewrites = {%s}\nD = %d\nBug = \"%s\"\nSPECIFICATION Spec\n%sCONSTRAINT Depth\n"
-            "INVARIANT Idempotent\nINVARIANT AccessIsReadOnly\nPROPERTY SaveIsIdentity\nPROPERTY LayoutBlind\nCHECK_DEADLOCK FALSE\n"
-            % (", ".join('"%s"' % k for k in kinds), ", ".join('"%s"' % k for k in rewrites), depth, bug, "VIEW NoHist\n" if view else ""))
+def lc_cfg(depth, bug="none", view=True, kinds=KINDS, rewrites=(), forms=("zip", "package")):
+    return ("CONSTANTS Files = {\"src\", \"a\", \"b\"}\nKinds = {%s}\nRewrites = {%s}\nForms = {%s}\nD = %d\nBug = \"%s\"\nSPECIFICATION Spec\n%sCONSTRAINT Depth\n"
+            "INVARIANT Idempotent\nINVARIANT AccessIsReadOnly\nINVARIANT FormBlind\nPROPERTY SaveIsIdentity\nPROPERTY LayoutBlind\nPROPERTY RefusalKeeps\n"
+            "CHECK_DEADLOCK FALSE\n"
+            % (", ".join('"%s"' % k for k in kinds), ", ".join('"%s"' % k for k in rewrites), ", ".join('"%s"' % k for k in forms), depth, bug,
+               "VIEW NoHist\n" if view else ""))
 
 
 def schedules(ctx, depth, kinds):
@@ -29,7 +32,8 @@ def schedules(ctx, depth, kinds):
         os.remove(f)
     prefixes = {json.dumps(st["hist"][:-1], sort_keys=True) for st in states if st["hist"]}
     hs = [st["hist"] for st in states if st["hist"] and json.dumps(st["hist"], sort_keys=True) not in prefixes
-          and st["hist"][0]["op"] == "open" and st["hist"][0]["f"] == "src" and any(o["op"] == "save" for o in st["hist"])]
+          and st["hist"][0]["op"] == "open" and st["hist"][0]["f"] == "src" and any(o["op"] == "save" for o in st["hist"])
+          and st["hist"][-1]["op"] in ("save", "refused")]
     hs.sort(key=lambda h: json.dumps(h, sort_keys=True))
     return hs, len(states)
 
@@ -92,11 +96,25 @@ def run_schedule(job):
                     # an accessor that raises (e.g. Cell.style on a font the library does not know) is a limitation of that
                     # accessor, not a statement of C02; it is recorded and the schedule goes on with the object in that state
                     e["note"] = "%s:%s" % (type(ax).__name__, str(ax)[:60])
+            elif op["op"] == "refused":
+                # writing one form over the other: iwork.py refuses; whatever happens, the existing file must still show the document
+                path = files[op["f"]]
+                e["fm"] = op["fm"]
+                try:
+                    doc.save(path, package=(op["fm"] == "package"))
+                    e["op"] = "save"        # not refused by this tree: then it is an ordinary save
+                except Exception as rx:  # noqa: BLE001
+                    e["refusal"] = type(rx).__name__
+                raw.append((len(trace["ev"]), observe.observe_doc(Document(path))))
             elif op["op"] == "save":
                 path = base + "-" + op["f"] + ".numbers"
+                e["fm"] = op.get("fm", "zip")
                 with warnings.catch_warnings(record=True) as w:
                     warnings.simplefilter("always")
-                    doc.save(path)
+                    if e["fm"] == "package":
+                        doc.save(path, package=True)
+                    else:
+                        doc.save(path)
                 for x in w:
                     msg = str(x.message)
                     m = re.match(r"@(.*):\[(\d+),(\d+)\]: unsupported data type (\w+) for save", msg)
@@ -122,11 +140,14 @@ def run_schedule(job):
         if d:
             trace["ev"][i]["diff"] = d
     for e in trace["ev"]:
-        if e["op"] == "save" and "obs" not in e:
+        if e["op"] in ("save", "refused") and "obs" not in e:
             e["obs"] = []
     trace["meta"]["exempt"] = [len(exempt_cells), sorted(exempt_tables)]
     for f in glob.glob(base + "-*"):
-        os.remove(f)
+        if os.path.isdir(f):
+            shutil.rmtree(f)
+        else:
+            os.remove(f)
     return trace
 
 
@@ -141,12 +162,17 @@ def run(ctx):
     ctx.tlc("Lifecycle", lc_cfg(7 if q else 9), what="MC_Lifecycle", timeout=3000)
     ctx.tlc("Lifecycle", lc_cfg(7, bug="AccessMutates"), what="Bug_AccessMutates", expect_violation="AccessIsReadOnly", count=False)
     ctx.tlc("Lifecycle", lc_cfg(7, bug="DirtySave"), what="Bug_DirtySave", expect_violation="Idempotent", count=False)
+    ctx.tlc("Lifecycle", lc_cfg(7, bug="PackageDropsLooseFiles"), what="Bug_PackageDropsLooseFiles", expect_violation=True, count=False)
     ctx.stage("schedules")
     hs, nst = schedules(ctx, 5 if q else 7, ["formatted", "style", "rowheight"] if q else ["formula", "formatted", "style", "border", "rowheight"])
     rng = random.Random(ctx.seed + 2)
     # the plain cycle first; then schedules with accessors; extra accessor kinds are substituted so that all seven occur
-    plain = [{"op": "open", "f": "src"}, {"op": "save", "f": "a"}, {"op": "open", "f": "a"}, {"op": "save", "f": "b"}]
-    allacc = [{"op": "open", "f": "src"}] + [{"op": "access", "k": k} for k in KINDS] + [{"op": "save", "f": "a"}]
+    plain = [{"op": "open", "f": "src"}, {"op": "save", "f": "a", "fm": "zip"}, {"op": "open", "f": "a"}, {"op": "save", "f": "b", "fm": "zip"}]
+    # the package form: written, read back, written over itself, crossed with the zip form in both directions
+    plain_pkg = [{"op": "open", "f": "src"}, {"op": "save", "f": "a", "fm": "package"}, {"op": "open", "f": "a"}, {"op": "save", "f": "b", "fm": "zip"},
+                 {"op": "save", "f": "a", "fm": "package"}, {"op": "refused", "f": "b", "fm": "package"}, {"op": "refused", "f": "a", "fm": "zip"},
+                 {"op": "open", "f": "a"}, {"op": "save", "f": "b", "fm": "zip"}]
+    allacc = [{"op": "open", "f": "src"}] + [{"op": "access", "k": k} for k in KINDS] + [{"op": "save", "f": "a", "fm": "zip"}]
     pool = [h for h in hs if any(o["op"] == "access" for o in h)]
     ctx.extra["schedules"] = {"states_with_hist": nst, "maximal": len(hs), "with_access": len(pool)}
     ctx.stage("documents")
@@ -156,7 +182,7 @@ def run(ctx):
     jobs = []
     k = 0
     for p in docs:
-        chosen = [plain, allacc] + rng.sample(pool, min(len(pool), 1 if q else 6))
+        chosen = [plain, plain_pkg, allacc] + rng.sample(pool, min(len(pool), 1 if q else 6))
         for s in chosen:
             s2 = []
             for o in s:
@@ -184,6 +210,10 @@ def run(ctx):
         ev = t["ev"][line - 1]
         acc = sorted({e.get("k") for e in t["ev"][:line] if e["op"] == "access"})
         nsave = sum(1 for e in t["ev"][:line] if e["op"] == "save")
+        if op == "refused":
+            # Level B: what a refused save leaves behind is the mechanism's business (Lifecycle!RefusalKeeps), not C02's statement
+            ctx.drifted("%s: a refused save (%s over the other form) left the target changed: %s %s" % (t["meta"]["source"], ev.get("fm"), clause, ev["exc"]))
+            return
         ctx.fail({"engine": "trace", "clause": clause.split(".")[1] if "." in clause else clause, "component": clause.split(".")[-1], "op": op,
                   "fixture": t["meta"]["source"], "exc": ev["exc"].split(":")[0], "accessed": ",".join(acc), "save_no": nsave},
                  "%s: schedule %s rejected at event %d (%s): %s %s %s" % (t["meta"]["source"], "/".join(e["op"] + (":" + e["k"] if "k" in e else "") for e in t["ev"][:line]),
